@@ -21,10 +21,14 @@ namespace MpVerif.C04
 abbrev Val := Rat
 /-- (node id, position) -/
 abbrev Cell := Nat × Nat
-/-- contents of all value nodes (one numeric array per node) -/
-abbrev St := Cell → Val
+/-- contents of all value nodes (one numeric array per node).
+    (A structure, not a bare function type: the compiled driver must not eta-expand state transformers.) -/
+structure St where
+  get : Cell → Val
 
-def St.set (S : St) (c : Cell) (v : Val) : St := fun c' => if c' = c then v else S c'
+instance : CoeFun St (fun _ => Cell → Val) := ⟨St.get⟩
+
+def St.set (S : St) (c : Cell) (v : Val) : St := ⟨fun c' => if c' = c then v else S c'⟩
 
 /-- `ValueNode::SetNum`: if the existing value is non-zero only a larger non-zero value replaces it. -/
 def setNumVal (cur v : Val) : Val :=
@@ -137,16 +141,16 @@ def runPre (k : Kind) (es : List Entry) (S : St) : St := es.foldl (fun S e => pr
 def runPost (k : Kind) (es : List Entry) (S : St) : Option St := runEntriesPost k es.reverse S
 
 /-- `CleanUpValueNodes`: every registered node is re-zeroed -/
-def clean (_ : St) : St := fun _ => 0
+def clean (_ : St) : St := ⟨fun _ => 0⟩
 
 /-- `ValueNode::operator=(vector)`: copy, then `resize(Size())` (cut off / zero-fill) -/
 def resized (v : List Val) (size : Nat) (i : Nat) : Val := if i < size then v.getD i 0 else 0
 
 /-- `src_ = mv` / `dest_ = mv`: the nodes named in `inputs` receive the resized vectors -/
 def loadInto (S : St) (sizes : Nat → Nat) (inputs : List (Nat × List Val)) : St :=
-  fun c => match inputs.lookup c.1 with
+  ⟨fun c => match inputs.lookup c.1 with
     | some v => resized v (sizes c.1) c.2
-    | none => S c
+    | none => S c⟩
 
 /-- the array of node `n` as returned to the caller -/
 def readNode (S : St) (n size : Nat) : List Val := (List.range size).map fun i => S (n, i)
